@@ -184,20 +184,20 @@ RemoveRange(from, cnt, asc) ==
   /\ Log([act |-> "RemoveRange", from |-> from, cnt |-> cnt, asc |-> asc,
           reply |-> Cardinality({k \in Keys : InSpan(k, from, cnt) /\ work[k] # 0})])
 
-\* of every `period` consecutive keys of the span keep the first `keep`, remove the others. Generator bias
-\* only (the map has no notion of nodes): after an ascending fill every B = 32 leaf holds 31 consecutive
-\* keys, so period 31 / keep 16 trims every leaf inside the span to the minimum fill wherever the span
-\* starts, a short span makes neighbouring leaves unequal, and a long period with keep = period - 1 plucks
-\* single keys, which then underflow minimum leaves (merges) and, above them, inner nodes (borrow / merge).
-InThin(k, from, cnt, period, keep) == InSpan(k, from, cnt) /\ (k - from) % period >= keep
-Thin(from, cnt, period, keep, asc) ==
+\* of every `period` consecutive keys of the span remove those at offsets lo..hi-1. Generator bias only (the
+\* map has no notion of nodes): after an ascending fill every B = 32 leaf holds 31 consecutive keys, so
+\* period 31 / offsets 16..30 trims every leaf inside the span to the minimum fill wherever the span
+\* starts, a short span makes neighbouring leaves unequal, and a single offset plucks one key per period,
+\* which underflows minimum leaves (merges) and, above them, inner nodes (borrow from a sibling / merge).
+InThin(k, from, cnt, period, lo, hi) == InSpan(k, from, cnt) /\ (k - from) % period >= lo /\ (k - from) % period < hi
+Thin(from, cnt, period, lo, hi, asc) ==
   /\ n < MaxLen /\ ~Refused
-  /\ work' = [k \in Keys |-> IF InThin(k, from, cnt, period, keep) THEN 0 ELSE work[k]]
+  /\ work' = [k \in Keys |-> IF InThin(k, from, cnt, period, lo, hi) THEN 0 ELSE work[k]]
   /\ dirty' = (dirty \/ work' # work)
-  /\ pend' = IF work' = work THEN pend ELSE Append(pend, <<"t", from, cnt, period, keep, asc>>)
+  /\ pend' = IF work' = work THEN pend ELSE Append(pend, <<"t", from, cnt, period, lo, hi, asc>>)
   /\ UNCHANGED <<saved, exists, first, latest, ver, poisoned, readers, opt, shk>>
-  /\ Log([act |-> "Thin", from |-> from, cnt |-> cnt, period |-> period, keep |-> keep, asc |-> asc,
-          reply |-> Cardinality({k \in Keys : InThin(k, from, cnt, period, keep) /\ work[k] # 0})])
+  /\ Log([act |-> "Thin", from |-> from, cnt |-> cnt, period |-> period, lo |-> lo, hi |-> hi, asc |-> asc,
+          reply |-> Cardinality({k \in Keys : InThin(k, from, cnt, period, lo, hi) /\ work[k] # 0})])
 
 \* ------------------------------------------------------------------ versions
 SaveVersion ==
@@ -408,13 +408,20 @@ NextSim == /\ IF n = 1 /\ NK >= 1000
 \* and small re-fills, so that leaves sit at the minimum fill next to fuller ones and inner nodes underflow:
 \* borrow from the right / left inner sibling, inner merges, root collapse; with saves, re-opening, loads and
 \* index reads in between.
+\* one key out of every leaf of the whole tree, upwards or downwards: with the leaves at the minimum every other
+\* removal merges two leaves, the inner nodes lose children and underflow one after the other, next to siblings
+\* whose children already differ in size (31 / 16 / 30 ...)
+FullPass == \E p \in {RE({16, 31})}, o \in {RE(0..15)}, a \in {RE(BOOLEAN)} : Thin(1, NK, p, o, o + 1, a)
 ShapeWrite(j) ==
-  CASE j \in 1..3 -> \* trim the leaves of a long span to the minimum (ascending fill: 31 per leaf, descending: 16 / 17)
-         \E f \in {RE(1..(NK \div 2))}, c \in {RE({200, 400, 600, NK})}, a \in {RE(BOOLEAN)} : Thin(f, c, 31, 16, a)
+  CASE j \in 1..3 -> \* trim the leaves of a long span to the minimum (ascending fill: 31 per leaf; descending: 16 / 17 already)
+         \E f \in {RE(1..(NK \div 2))}, c \in {RE({300, 600, NK})}, a \in {RE(BOOLEAN)} : Thin(f, c, 31, 16, 31, a)
     [] j \in 4..5 -> \* one or two leaves only: unequal neighbours
-         \E f \in {RE(Keys)}, c \in {RE({31, 45, 62})}, kp \in {RE({16, 17, 20})}, a \in {RE(BOOLEAN)} : Thin(f, c, 31, kp, a)
-    [] j \in 6..10 -> \* pluck single keys, a few leaves apart
-         \E f \in {RE(Keys)}, c \in {RE({60, 150, 300, 600, NK})}, p \in {RE({17, 33, 47, 64, 95})}, a \in {RE(BOOLEAN)} : Thin(f, c, p, p - 1, a)
+         \E f \in {RE(Keys)}, c \in {RE({31, 45, 62})}, lo \in {RE({16, 17, 20})}, a \in {RE(BOOLEAN)} : Thin(f, c, 31, lo, 31, a)
+    [] j \in 9..10 -> FullPass
+    [] j \in 6..8 -> \* pluck one key per leaf (or every second / third leaf), mostly from the high keys down, so that the
+                       \* right-hand inner node is already uneven when the left-hand one underflows
+         \E f \in {1 + 31 * RE(0..(NK \div 62))}, c \in {RE({300, 600, NK, NK})}, p \in {RE({16, 31, 31, 47, 62})}, o \in {RE(0..15)}, a \in {RE(BOOLEAN)} :
+            Thin(f, c, p, o, o + 1, a)
     [] j = 11 -> \E k \in {RE(Keys)} : Remove(k)
     [] j \in 12..13 -> \E f \in {RE(Keys)}, c \in {RE({5, 17, 33, 90, 250})}, a \in {RE(BOOLEAN)} : RemoveRange(f, c, a)
     [] j = 14 -> \E f \in {RE(Keys)}, c \in {RE({5, 17, 40, 90})}, s \in {RE(0..5)}, a \in {RE(BOOLEAN)} : Fill(f, c, s, a)
@@ -431,10 +438,23 @@ ShapeAct(j) ==
     [] j \in 25..26 -> \E t \in {RE(Targets \cup {0})}, i \in {RE(0..NK)} : t \in Targets /\ ByIndex(t, i)
     [] j \in 27..28 -> \E t \in {RE(Targets \cup {0})}, k \in {RE(Keys)} : t \in Targets /\ WithIndex(t, k)
     [] j = 29 -> \E k \in {RE(Keys)}, v \in {RE(Vals)} : Set(k, v)
-NextShape == /\ IF n = 1
-                THEN \E s \in {RE(0..5)}, a \in {RE(BOOLEAN)} : Fill(1, NK, s, a)
-                ELSE \E j \in kinds : ShapeAct(j)
-             /\ kinds' = {RE(1..15), RE(1..15), RE(1..29), RE(1..29), 29}
+    [] j = 30 -> poisoned /\ Rollback               \* the writes refuse on a poisoned session: the way out
+    \* a cycle: empty the tree, fill it in one direction, (ascending: trim every leaf to the minimum), one full pass
+    [] j = 40 -> \E a \in {RE(BOOLEAN)} : RemoveRange(1, NK, a)
+    [] j = 41 -> \E s \in {RE(0..5)} : Fill(1, NK, s, TRUE)
+    [] j = 42 -> \E s \in {RE(0..5)} : Fill(1, NK, s, FALSE)
+    [] j = 31 -> \E lo \in {RE({16, 16, 17})}, a \in {RE(BOOLEAN)} : Thin(1, NK, 31, lo, 31, a)
+    [] j = 32 -> FullPass
+    [] OTHER -> FALSE
+FreeKinds == {RE(1..15), RE(1..29), 30} \cup (IF RE(1..3) = 1 THEN {40} ELSE {})
+NextKinds(j) == CASE j = 40 -> {RE({41, 42})}
+                  [] j = 41 -> {31}
+                  [] j = 42 -> {32}
+                  [] j = 31 -> {32}
+                  [] OTHER -> FreeKinds
+\* the first step starts a cycle; then the kinds of a step are drawn in the step before (two free ones, now and
+\* then the start of a new cycle)
+NextShape == \E j \in (IF n = 1 THEN {RE({41, 42})} ELSE kinds) : ShapeAct(j) /\ kinds' = NextKinds(j)
 
 \* skeleton generator (C24): hash-relevant calls only
 NextSkel == \E j \in {RE(1..3)} : IF j = 1 /\ dirty THEN SaveVersion ELSE SimWrites
